@@ -323,7 +323,7 @@ func c19Run(c c19Case, st *c19Stats) (violation string, harnessErr error) {
 
 		// (1) liveness / crash path
 		if resp.hung {
-			return c19HungPrefix + what + ": the call did not return within " + c19HangLimit(stream != nil).String(), nil
+			return c19HungPrefix + what + ": the call did not return within " + (6 * c19HangLimit(stream != nil)).String(), nil
 		}
 		if resp.escaped != "" {
 			return what + ": a panic escaped the whole handler chain: " + resp.escaped, nil
@@ -543,6 +543,9 @@ func TestVerif_C19_http(t *testing.T) {
 	c19ProcessInit()
 	col := verifkit.New("C19", "http", c19Rule)
 	defer col.Finish()
+	defer func() {
+		col.Extra("calls_slower_than_the_hang_limit_but_answered", c19SlowCalls.Load())
+	}()
 	col.Note("not driven: /debug/pprof/* (profile and trace block for their duration; not data-plane), the embedded UI file server, /assets/, auth/key routes, sessions, rag, transfer and compiler routes (outside the KV/vector/index/graph/system scope of the statement). /events/stream is driven with a 40 ms context deadline.")
 	col.Note("the 512 MB body-size limit is probed once per thorough run (shard 0) with a streaming reader, never in the quick tier")
 
